@@ -293,6 +293,13 @@ theorem own_units_physical :
     (∀ r ∈ Gen.Units.ownUnits, 0 < (fracOf r.2.1 : ℚ) ∧ r.2.2.1.length = nDims) := by
   refine ⟨by decide +kernel, by decide +kernel, by decide +kernel⟩
 
+/-- **`unit_of(x, simplified=True)`** is the same physical unit as `unit_of(x)` — same SI value, the dimension of `x` — written in
+    SI base units (unit factor exactly 1, the scale moved into the magnitude); `simplified=False` is `unit_of(x)`. -/
+theorem unit_of_simplified_spec (v : PyVal α) (hv : v.WF) :
+    (unitOfScalarS true v).si = (unitOfScalar v).si ∧ (unitOfScalarS true v).dims = v.dims ∧ (unitOfScalarS true v).WF ∧
+    (∀ q, unitOfScalarS true v = .qty q → q.unit.factor = 1) ∧ unitOfScalarS false v = unitOfScalar v :=
+  unitOfScalarS_spec v hv
+
 /-! ## registry ↔ human readable -/
 
 /-- **Human-readable round trip.** For a registry whose entries are the int `1` or `factor × (one unit object)` whose plain
@@ -319,6 +326,17 @@ example :
     (toHuman [RegEntry.q 1 [(um, 1)], RegEntry.q 1 [(micromole, 1)]]).toOption.bind (fun hs => (fromHuman lookup hs).toOption)
       = some [RegEntry.q 1 [(um, 1)], RegEntry.q 1 [(umol, 1)]] := by
   decide +kernel
+
+/-- **Deserialisation accepts / refuses.** An entry `(1, 1)` gives the int `1`; an entry `(factor, symbol)` is accepted iff the symbol
+    parses to exactly ONE unit object `u` (result `factor × u`); an unparseable symbol is a LookupError, a symbol that parses to a
+    compound or to no unit ('m/s', 'N*m', 'dimensionless') a TypeError.  `None` round-trips to `None` (`toHumanOpt`, `fromHumanOpt`). -/
+theorem from_human_readable_accepts_iff (lookup : String → Option (List (SymUnit α × Int))) :
+    (∀ e r, fromHumanEntry lookup e = .ok r ↔
+      (e = .one ∧ r = .num 1) ∨ ∃ f sym u k, e = .fs f sym ∧ lookup sym = some [(u, k)] ∧ r = .q f [(u, 1)]) ∧
+    (∀ f sym, (fromHumanEntry lookup (.fs f sym) = .error .lookupError ↔ lookup sym = none) ∧
+      (fromHumanEntry lookup (.fs f sym) = .error .typeError ↔ ∃ l, lookup sym = some l ∧ l.length ≠ 1)) ∧
+    toHumanOpt (none : Option (List (RegEntry α))) = .ok none ∧ fromHumanOpt lookup none = .ok none :=
+  ⟨fromHumanEntry_ok_iff lookup, fromHumanEntry_error_iff lookup, rfl, rfl⟩
 
 /-- DEFECT (outside "standard prefixed units"): `unit_registry_to_human_readable` checks only that ONE unit object occurs and drops its
     exponent — `m**2` is serialised as `(1.0, 'm')` and comes back as `m`. -/
@@ -485,6 +503,16 @@ theorem helpers_allclose_atol {β : Type} [Field β] [LinearOrder β] [IsStrictO
         .ok (decide (|(PyVal.qty p).si - (PyVal.qty q).si| ≤ |(PyVal.qty p).si| * rtol + (PyVal.qty t).si))) ∧
     (p.unit.dims ≠ t.unit.dims → allcloseScalar (.qty p) (.qty q) rtol (some (.qty t)) = .error .valueError) :=
   allcloseScalar_atol p q t hp hpos rtol hd
+
+/-- **`allclose` on quantity arrays** (equal length; also a scalar `a` broadcast against an array `b`): when no pair raises, the answer is
+    True iff every pair is close — so by `helpers_allclose_unit_independent` / `helpers_allclose_atol` it is the plain element-wise
+    test on the physical values.  An `UncertainQuantity` argument is replaced by its nominal quantity first (`allcloseU`, by definition). -/
+theorem helpers_allclose_arrays {β : Type} [Field β] [LinearOrder β] [IsStrictOrderedRing β]
+    (rtol : β) (atol : Option (PyVal β)) (a b : List (PyVal β))
+    (hok : List.Forall₂ (fun x y => ∃ r, allcloseScalar x y rtol atol = .ok r) a b) :
+    ∃ r, allcloseArrays false a b rtol atol = .ok r ∧
+      (r = true ↔ List.Forall₂ (fun x y => allcloseScalar x y rtol atol = .ok true) a b) :=
+  allcloseArrays_spec rtol atol a b hok
 
 /-- **`compare_equality`** on two quantities is physical equality: True iff same dimension and same SI value (different
     dimensions → False, no exception); on two plain numbers it is `==`.  (Quantity against plain number: see the quirk witness.) -/
